@@ -45,10 +45,12 @@ template <> struct RhumbGLOrder<long double> { static const int n = 14; };
 
 template <class T> struct RhumbInv {
   T s12, azi12, S12, lon12, psi12, dm;   // dm = signed meridian-distance difference
+  T qpsi;                                // int Q dpsi over the course (0 when not computed)
   bool tie, pole, degenerate;            // degenerate: both end points at poles (azimuth / area undefined)
 };
 template <class T> struct RhumbDir {
   T lat2, lon12, lon2, S12, mu2;
+  T psi12, dm, qpsi;                     // integrals over the course (0 for east-west / undefined courses)
   bool crossed, from_pole, at_pole;      // at_pole: |M2| == quarter meridian exactly
 };
 
@@ -64,7 +66,7 @@ template <class T> struct RhumbRef {
     f1 = 1 - f; b = a * f1; e2 = f * (2 - f); e2m = f1 * f1; ae = sqrt(fabs(e2));
     shape = e2 > 0 ? 1 : e2 < 0 ? -1 : 0;
     delta = shape == 0 ? inf() : shape > 0 ? acosh(1 / ae) : asinh(1 / ae);
-    c2 = Qs(1);
+    c2 = Qsc(1, 0);
     // breakpoints for the meridian integrand (only the ellipsoid singularity matters)
     bp.push_back(0); cum.push_back(0);
     T x = 0;
@@ -78,19 +80,19 @@ template <class T> struct RhumbRef {
   }
 
   // ---- point functions (latitude in degrees)
-  T wfun(T c) const { return e2m + e2 * c * c; }                    // 1 - e^2 sin^2 phi, from the cosine
-  T rho_at(T x) const { T s, c; sincosd<T>(x, s, c); T w = wfun(c); return a * e2m / (w * sqrt(w)); }
-  T circle_radius(T x) const { T s, c; sincosd<T>(x, s, c); return a * c / sqrt(wfun(c)); }
-  T Qs(T s) const {                                                 // Q as a function of sin(phi)
-    T t = shape == 0 ? s : shape > 0 ? atanh(ae * s) / ae : atan(ae * s) / ae;
-    return b * b / 2 * (s / (1 - e2 * s * s) + t);
-  }
-  T Qzone(T x) const { T s, c; sincosd<T>(x, s, c); T t = shape == 0 ? s : shape > 0 ? atanh(ae * s) / ae : atan(ae * s) / ae;
-    return b * b / 2 * (s / wfun(c) + t); }
+  // 1 - e^2 sin^2 phi as a sum of positive terms: from the cosine (oblate), from the sine (prolate)
+  T wfun(T s, T c) const { return e2 > 0 ? e2m + e2 * c * c : 1 - e2 * s * s; }
+  // atanh(e sin phi)/e (oblate, via asinh so that e sin phi -> 1 is harmless), atan form for prolate, sin phi for the sphere
+  T tfun(T s, T w) const { return shape == 0 ? s : shape > 0 ? asinh(ae * s / sqrt(w)) / ae : atan(ae * s) / ae; }
+  T rho_at(T x) const { T s, c; sincosd<T>(x, s, c); T w = wfun(s, c); return a * e2m / (w * sqrt(w)); }
+  T nu_at(T x) const { T s, c; sincosd<T>(x, s, c); return a / sqrt(wfun(s, c)); }
+  T circle_radius(T x) const { T s, c; sincosd<T>(x, s, c); return a * c / sqrt(wfun(s, c)); }
+  T Qsc(T s, T c) const { T w = wfun(s, c); return b * b / 2 * (s / w + tfun(s, w)); }
+  T Qzone(T x) const { T s, c; sincosd<T>(x, s, c); return Qsc(s, c); }
   T psi(T x) const {
     T s, c; sincosd<T>(x, s, c);
     if (c == 0) return s > 0 ? inf() : -inf();
-    T d = shape == 0 ? (T)0 : shape > 0 ? ae * atanh(ae * s) : -ae * atan(ae * s);
+    T d = shape == 0 ? (T)0 : shape > 0 ? ae * asinh(ae * s / sqrt(wfun(s, c))) : -ae * atan(ae * s);
     return asinh(s / c) - d;
   }
   T quarter_meridian() const { return Qm; }
@@ -103,23 +105,49 @@ template <class T> struct RhumbRef {
     if (shape == 0 && !polesing) d = 4;
     return d;
   }
-  // out[k] += integral of f_k over [xa,xb] (degrees), f given per radian;  graded panels
+  // out[k] = integral of f_k over latitude [xa,xb] (degrees); f(sin phi, cos phi, v) gives the integrands per radian.
+  // Graded panels (width = half the distance to the nearest singularity).  Polewards of 45 deg the integration
+  // variable is the colatitude, so that nodes next to a pole keep full *relative* accuracy of cos(phi).
   template <int K, class F> void quadv(T xa, T xb, bool polesing, F&& f, T* out) const {
     for (int k = 0; k < K; ++k) out[k] = 0;
     if (xa == xb) return;
+    T lo = xa < xb ? xa : xb, hi = xa < xb ? xb : xa, cut[4]; int nc = 0;
+    cut[nc++] = lo; if (lo < -45 && hi > -45) cut[nc++] = -45; if (lo < 45 && hi > 45) cut[nc++] = 45; cut[nc++] = hi;
+    for (int i = 0; i + 1 < nc; ++i) {
+      T p = cut[i], q = cut[i + 1], part[K];
+      if (q <= -45) segment<K>(-1, 90 + p, 90 + q, polesing, f, part);        // u = 90 + x
+      else if (p >= 45) segment<K>(1, 90 - q, 90 - p, polesing, f, part);      // u = 90 - x
+      else segment<K>(0, p, q, polesing, f, part);
+      for (int k = 0; k < K; ++k) out[k] += xb > xa ? part[k] : -part[k];
+    }
+  }
+  // cap = +-1: variable u = colatitude from that pole (deg), v0 < v1;  cap = 0: variable = latitude
+  template <int K, class F> void segment(int cap, T v0, T v1, bool polesing, F&& f, T* out) const {
+    for (int k = 0; k < K; ++k) out[k] = 0;
     const GL<T>& g = gl<T>(RhumbGLOrder<T>::n);
-    int dir = xb > xa ? 1 : -1; T x = xa; long guard = 0;
-    while (x != xb) {
-      T d = dsing(x, polesing);
+    auto dist = [&](T v) {
+      T colat = cap ? v : 90 - fabs(v);
+      T d = shape == 0 ? inf() : shape > 0 ? hypot(colat * deg<T>(), delta) : hypot((90 - colat) * deg<T>(), delta);
+      if (polesing) { T dp = colat * deg<T>(); if (dp < d) d = dp; }
+      if (d > 4) d = 4;
+      return d; };
+    // step from v1 down to v0 in a cap (towards the pole: panels halve), upwards otherwise
+    bool down = cap != 0;
+    T v = down ? v1 : v0, vend = down ? v0 : v1; long guard = 0;
+    while (v != vend) {
+      T d = dist(v);
       if (!(d > 0)) throw std::runtime_error("ref_rhumb: quadrature started on a singularity");
-      T w = d / 2 / deg<T>(), xn = x + dir * w;
-      if (dir > 0 ? !(xn < xb) : !(xn > xb)) xn = xb;
-      else if (fabs(xb - xn) < w / 8) xn = xb;
-      T h = (xn - x) / 2, m = (x + xn) / 2, v[K];
-      T acc[K]; for (int k = 0; k < K; ++k) acc[k] = 0;
-      for (int i = 0; i < g.n; ++i) { f(m + h * g.x[i], v); for (int k = 0; k < K; ++k) acc[k] += g.w[i] * v[k]; }
+      T w = d / 2 / deg<T>(), vn = down ? v - w : v + w;
+      if (down ? !(vn > vend) : !(vn < vend)) vn = vend; else if (fabs(vend - vn) < w / 8) vn = vend;
+      T a0 = down ? vn : v, a1 = down ? v : vn, h = (a1 - a0) / 2, m = (a0 + a1) / 2, val[K], acc[K];
+      for (int k = 0; k < K; ++k) acc[k] = 0;
+      for (int i = 0; i < g.n; ++i) {
+        T y = m + h * g.x[i], sy, cy; sincosd<T>(y, sy, cy);
+        if (cap) f(cap * cy, sy, val); else f(sy, cy, val);      // sin(phi) = +-cos(u), cos(phi) = sin(u)
+        for (int k = 0; k < K; ++k) acc[k] += g.w[i] * val[k];
+      }
       for (int k = 0; k < K; ++k) out[k] += acc[k] * h * deg<T>();
-      x = xn;
+      v = vn;
       if (++guard > 100000) throw std::runtime_error("ref_rhumb: too many panels");
     }
   }
@@ -142,7 +170,7 @@ template <class T> struct RhumbRef {
   }
   // signed difference m(x2) - m(x1); integrated directly when the points are close
   T dmerid(T x1, T x2) const {
-    if (npanels(x1, x2, false) <= 2) { T o[1]; quadv<1>(x1, x2, false, [this](T y, T* v) { v[0] = rho_at(y); }, o); return o[0]; }
+    if (npanels(x1, x2, false) <= 2) { T o[1]; quadv<1>(x1, x2, false, [this](T s, T c, T* v) { T w = wfun(s, c); v[0] = a * e2m / (w * sqrt(w)); }, o); return o[0]; }
     return merid(x2) - merid(x1);
   }
   // inverse of merid for |M| <= Qm
@@ -153,12 +181,16 @@ template <class T> struct RhumbRef {
     if (k + 1 >= bp.size()) k = bp.size() - 2;
     T lo = bp[k], hi = bp[k + 1], x = lo + (hi - lo) * (am - cum[k]) / (cum[k + 1] - cum[k]);
     const GL<T>& g = gl<T>(RhumbGLOrder<T>::n);
+    T prev = inf();
     for (int it = 0; it < 100; ++it) {
       T mv = cum[k] + g.panel([this](T y) { return rho_at(y); }, lo, x) * deg<T>();
       T dx = (mv - am) / (rho_at(x) * deg<T>()), xn = x - dx;
       if (xn < lo) xn = lo; if (xn > hi) xn = hi;
-      bool done = fabs(xn - x) <= tiny() * 90;
-      x = xn; if (done) return M < 0 ? -x : x;
+      T step = fabs(xn - x);
+      // converged: step at round-off level, or (quadratic phase over) the step no longer shrinks because it is
+      // dominated by the round-off of the quadrature sum, eps * Qm / (rho deg)
+      bool done = step <= tiny() * 90 || (it >= 2 && step >= prev && step <= (T)1e4 * eps_of<T>::v() * (90 + Qm / (rho_at(x) * deg<T>())));
+      x = xn; prev = step; if (done) return M < 0 ? -x : x;
     }
     throw std::runtime_error("ref_rhumb: merid_inv did not converge");
   }
@@ -166,10 +198,9 @@ template <class T> struct RhumbRef {
   // the three integrals over [x1,x2]: psi12, dm, int Q dpsi  (x1, x2 not poles)
   void course_integrals(T x1, T x2, T& psi12, T& dm, T& qpsi) const {
     T o[3];
-    quadv<3>(x1, x2, true, [this](T y, T* v) {
-      T s, c; sincosd<T>(y, s, c); T w = wfun(c), dpsi = e2m / (w * c);
-      T t = shape == 0 ? s : shape > 0 ? atanh(ae * s) / ae : atan(ae * s) / ae;
-      v[0] = dpsi; v[1] = a * e2m / (w * sqrt(w)); v[2] = b * b / 2 * (s / w + t) * dpsi; }, o);
+    quadv<3>(x1, x2, true, [this](T s, T c, T* v) {
+      T w = wfun(s, c), dpsi = e2m / (w * c);
+      v[0] = dpsi; v[1] = a * e2m / (w * sqrt(w)); v[2] = b * b / 2 * (s / w + tfun(s, w)) * dpsi; }, o);
     psi12 = o[0]; dm = o[1]; qpsi = o[2];
     // cross-check against the closed form wherever the latter does not suffer cancellation
     T pc = psi(x2) - psi(x1), big = std::max<T>(fabs(psi(x1)), fabs(psi(x2)));
@@ -178,14 +209,17 @@ template <class T> struct RhumbRef {
   }
 
   RhumbInv<T> inverse(T lat1, T lon1, T lat2, T lon2) const {
-    RhumbInv<T> r; r.degenerate = false;
-    T d = remainder(lon2 - lon1, (T)360);
-    r.tie = fabs(d) == 180; if (r.tie) d = 180;
+    RhumbInv<T> r; r.degenerate = false; r.qpsi = 0;
+    // lon2 - lon1 by an error-free two-sum so that an exact +-180 is recognised reliably
+    T sm = lon2 - lon1, bv = sm - lon2, er = (lon2 - (sm - bv)) + (-lon1 - bv);
+    T d = remainder(sm, (T)360);
+    r.tie = fabs(d) == 180 && er == 0; if (r.tie) d = 180;
+    else if (d == 180 && er > 0) d = -180; else if (d == -180 && er < 0) d = 180;
     r.lon12 = d; T lam12 = d * deg<T>();
     bool p1 = fabs(lat1) == 90, p2 = fabs(lat2) == 90;
     r.pole = p1 || p2;
     if (r.pole) {
-      r.dm = merid(lat2) - merid(lat1); r.s12 = fabs(r.dm);
+      r.dm = dmerid(lat1, lat2); r.s12 = fabs(r.dm);
       if (p1 && p2) { r.degenerate = true; r.psi12 = lat1 == lat2 ? nan() : (lat2 > 0 ? inf() : -inf());
         r.azi12 = lat1 == lat2 ? nan() : atan2(lam12, r.psi12) / deg<T>(); r.S12 = lat1 == lat2 ? (lat1 > 0 ? c2 : -c2) * lam12 : nan(); return r; }
       T polelat = p2 ? lat2 : lat1;
@@ -198,7 +232,7 @@ template <class T> struct RhumbRef {
       r.psi12 = 0; r.dm = 0; r.azi12 = atan2(lam12, (T)0) / deg<T>();
       r.s12 = circle_radius(lat1) * fabs(lam12); r.S12 = Qzone(lat1) * lam12; return r;
     }
-    T qpsi; course_integrals(lat1, lat2, r.psi12, r.dm, qpsi);
+    T qpsi; course_integrals(lat1, lat2, r.psi12, r.dm, qpsi); r.qpsi = qpsi;
     r.azi12 = atan2(lam12, r.psi12) / deg<T>();
     r.s12 = hypot(lam12, r.psi12) * (r.dm / r.psi12);
     r.S12 = lam12 * (qpsi / r.psi12);
@@ -209,7 +243,7 @@ template <class T> struct RhumbRef {
     RhumbDir<T> r; r.crossed = false; r.at_pole = false; r.from_pole = fabs(lat1) == 90;
     T salp, calp; sincosd<T>(azi12, salp, calp);
     T m1 = merid(lat1), dM = s12 * calp, M2 = m1 + dM;
-    r.mu2 = M2 / Qm * 90; r.lon12 = nan(); r.lon2 = nan(); r.S12 = nan();
+    r.mu2 = M2 / Qm * 90; r.lon12 = nan(); r.lon2 = nan(); r.S12 = nan(); r.psi12 = 0; r.dm = 0; r.qpsi = 0;
     if (fabs(M2) > Qm) {
       r.crossed = true;
       T q = remainder(M2, 4 * Qm);
@@ -226,12 +260,14 @@ template <class T> struct RhumbRef {
     if (dM == 0) r.lat2 = lat1;
     else if (fabs(dM) < (T)1e-6 * Qm) {
       T rd = rho_at(lat1) * deg<T>(), del = dM / rd; bool ok = false;
+      T prevs = inf();
       for (int it = 0; it < 60; ++it) {
         T x = lat1 + del; if (x > 90) x = 90; if (x < -90) x = -90;
-        T o[1]; quadv<1>(lat1, x, false, [this](T y, T* v) { v[0] = rho_at(y); }, o);
+        T o[1]; quadv<1>(lat1, x, false, [this](T s, T c, T* v) { T w = wfun(s, c); v[0] = a * e2m / (w * sqrt(w)); }, o);
         T g = o[0] - dM, dn = (x - lat1) - g / (rho_at(x) * deg<T>());
-        bool done = fabs(dn - del) <= tiny() * fabs(dn);
-        del = dn; if (done) { ok = true; break; }
+        T step = fabs(dn - del);
+        bool done = step <= tiny() * fabs(dn) || (it >= 2 && step >= prevs && step <= (T)1e4 * eps_of<T>::v() * fabs(dn));
+        del = dn; prevs = step; if (done) { ok = true; break; }
       }
       if (!ok) throw std::runtime_error("ref_rhumb: local latitude solve did not converge");
       r.lat2 = lat1 + del;
@@ -243,6 +279,7 @@ template <class T> struct RhumbRef {
     }
     if (fabs(r.lat2) == 90) { r.at_pole = true; return r; }
     T psi12, dm, qpsi; course_integrals(lat1, r.lat2, psi12, dm, qpsi);
+    r.psi12 = psi12; r.dm = dm; r.qpsi = qpsi;
     T lam = salp * s12 * (psi12 / dm);
     r.lon12 = lam / deg<T>(); r.lon2 = lon1 + r.lon12; r.S12 = salp * s12 * (qpsi / dm);
     return r;
